@@ -44,7 +44,9 @@ def gen_net(rng):
     lat = rng.choice(LAT)
     if k < 0.4:
         tag = rng.choice(["99.0.0", "v99.0.0", "1.0", "0.1.dev1", "0.0.1", "v0.0.1", "99.0.0rc1", "99.0.0.dev1", "99.0a1",
-                          "99.0.0.post1", "banana", "", None, "1.0.0+local", "2!1.0"])
+                          "99.0.0.post1", "banana", "", None, "1.0.0+local", "2!1.0",
+                          "continuous-integration-development-snapshot", "nightly-build-from-main-branch", "release_candidate_for_testing",
+                          "v" * 40, "1." * 30 + "0", "rc" * 25])
         return {"kind": "tag", "tag": tag, "latency_us": lat}
     if k < 0.45:
         return {"kind": "no_tag", "latency_us": lat}
@@ -142,11 +144,15 @@ def execute(sc, ctx):
     t = wt.run_cmd(argv_t)
     t_elapsed = t.end_us - t.start_us
     t_exit = t.outcome[1] if t.outcome[0] == "exit" else "abort:" + t.extra.get("abort_type", "?")
-    r = w.run_child(("pyfunc", simthread.run_cli_job, (sc["tool"], argv, sc["net"], sc["sched_seed"], sc["preempt"])))
+    r = w.run_child(("pyfunc", simthread.run_cli_job, (sc["tool"], argv, sc["net"], sc["sched_seed"], sc["preempt"])), timeout=25)
     ctx.evaluations += 1
     ctx.steps += 1
     if r.outcome[0] == "hang":
-        raise core.HarnessError("real-time hang inside the thread simulator")
+        # the simulated process burnt 25 s of real CPU time on a command whose twin needs milliseconds: a stall that
+        # virtual time cannot see (e.g. catastrophic backtracking while the GIL is held)
+        ctx.violate({"kind": "real-time-stall", "net": sc["net"]["kind"]},
+                    f"{sc['tool']} {sc['argv']} net {sc['net']}: no result after 25 s of real time (twin: {t.brief()} in {t_elapsed} us virtual)")
+        return
     if r.outcome[0] != "exit" or not isinstance(r.value, dict):
         raise core.HarnessError(f"cli job failed: {r.outcome} {r.extra.get('abort_tb', '')[-800:]}")
     v = r.value
